@@ -2,7 +2,8 @@
    the observables exactly as harness/src/bin/c17.rs does.
 
    case = [fmt; ty; N; h0; ha_mode; ha_p; tail; m; item_0 .. item_{m-1}]
-     fmt  0 scripted deserializer, 1 JSON text, 2 bincode, 3 serde_json::Value, 4 serialize
+     fmt  0 scripted deserializer, 1 JSON text, 2 bincode, 3 serde_json::Value, 4 serialize,
+          5 the scripted deserializer entered through deserialize_in_place (same meaning as 0)
      ty   0 u8, 1 f64, 2 drop-tracked Tr
      h0   -1 = size_hint() says None up front, otherwise Some h0
      ha_mode / ha_p: size_hint() asked again after k calls of next_element:
@@ -50,7 +51,7 @@ Definition run_c17 (case : list Z) : list Z :=
       flat_map enc_tok ts ++ [zlen bytes] ++ bytes
     else
       let o := deserialize (znat n) (mk_script h0 mode p tail its) in
-      let pl := if fmt =? 0 then Z.of_nat (polls o) else -1 in
+      let pl := if (fmt =? 0) || (fmt =? 5) then Z.of_nat (polls o) else -1 in
       let dr := if ty =? 2 then sortZ (dropped o) else [] in
       match result o with
       | DOk a => [1; zlen a] ++ a ++ [pl; zlen dr] ++ dr
